@@ -1,6 +1,7 @@
 import VlsModel.Lemmas.Wire
 import VlsModel.Gen.WireSchema
 import VlsModel.Gen.FnMsgs
+import VlsModel.Gen.FnPsbt
 import VlsModel.Lemmas.FnGen
 /-
 C19 — the frame length check of `vls-protocol/src/msgs.rs` tied to the source by rs2lean.
@@ -108,6 +109,87 @@ theorem C19_fn_min_frame (en : Entry) (v : Val α) :
   have : (beBytes 2 en.id).length = 2 := by simp [beBytes]
   simp only [asVec, List.length_append, this]
   omega
+
+
+/-! ## psbt.rs: `StreamedPSBT::unsigned_tx_checks` (the guard in front of the input loop of the streamed decoder)
+
+rust-bitcoin's `Psbt`, `Transaction`, `TxIn` are declared to the translator as far as the function reads them
+(`"foreign_structs"` of `translate/fn_targets/Psbt.json`: `script_sig` as its bytes, `witness` as its list of elements —
+`ScriptBuf::is_empty` / `Witness::is_empty` are "no bytes" / "no elements").  The model's `Streamed.TxIn` keeps only the
+two emptiness flags. -/
+section Psbt
+open Gen.FnPsbt
+
+/-- what the loop of `unsigned_tx_checks` computes, input by input -/
+def checksSpec : List TxIn → Rs.M Unit
+  | [] => .ok ()
+  | i :: is =>
+    if !i.script_sig.isEmpty then .error (.err "Error::UnsignedTxHasScriptSigs")
+    else if !i.witness.isEmpty then .error (.err "Error::UnsignedTxHasScriptWitnesses")
+    else checksSpec is
+
+/-- **C19_fn_unsigned_tx_checks.** the generated loop (early `return Err(..)` per input) is this recursion -/
+theorem C19_fn_unsigned_tx_checks (psbt : Psbt) :
+    StreamedPSBT.unsigned_tx_checks psbt = checksSpec psbt.unsigned_tx.input := by
+  unfold StreamedPSBT.unsigned_tx_checks
+  generalize psbt.unsigned_tx.input = l
+  induction l with
+  | nil => rfl
+  | cons x xs ih =>
+    by_cases h1 : x.script_sig.isEmpty <;> by_cases h2 : x.witness.isEmpty <;>
+      simp [Rs.loopM, checksSpec, h1, h2, Rs.fail, bind, Except.bind, pure, Except.pure] at ih ⊢
+    exact ih
+
+/-- it passes iff every input of the unsigned transaction has an empty scriptSig and an empty witness -/
+theorem C19_fn_unsigned_tx_checks_ok (psbt : Psbt) :
+    StreamedPSBT.unsigned_tx_checks psbt = .ok () ↔
+      psbt.unsigned_tx.input.all (fun i => i.script_sig.isEmpty && i.witness.isEmpty) = true := by
+  rw [C19_fn_unsigned_tx_checks]
+  generalize psbt.unsigned_tx.input = l
+  induction l with
+  | nil => simp [checksSpec]
+  | cons x xs ih =>
+    by_cases h1 : x.script_sig.isEmpty <;> by_cases h2 : x.witness.isEmpty <;>
+      simp [checksSpec, h1, h2, ih]
+
+/-- **C19_fn_decode_guard.** the guard of the model's `Streamed.decode` is the generated `unsigned_tx_checks`: for a
+    parsed PSBT `g` and its model `p` agreeing on which inputs have an empty scriptSig / witness, the model refuses
+    exactly when the generated check returns an error, and otherwise goes on to the input loop -/
+theorem C19_fn_decode_guard (p : Streamed.Psbt) (g : Psbt)
+    (hcorr : g.unsigned_tx.input.map (fun i => (i.script_sig.isEmpty, i.witness.isEmpty))
+           = p.txInputs.map (fun i => (i.scriptSigEmpty, i.witnessEmpty))) :
+    (StreamedPSBT.unsigned_tx_checks g ≠ .ok () → Streamed.decode p = none) ∧
+    (StreamedPSBT.unsigned_tx_checks g = .ok () →
+      Streamed.decode p = (Streamed.stepAll p.txInputs p.inputs).map (fun r => ({ p with inputs := r.1 }, r.2))) := by
+  have hall : p.txInputs.all (fun i => i.scriptSigEmpty && i.witnessEmpty)
+      = g.unsigned_tx.input.all (fun i => i.script_sig.isEmpty && i.witness.isEmpty) := by
+    have h1 : p.txInputs.all (fun i => i.scriptSigEmpty && i.witnessEmpty)
+        = (p.txInputs.map (fun i => (i.scriptSigEmpty, i.witnessEmpty))).all (fun pr => pr.1 && pr.2) := by
+      rw [List.all_map]; rfl
+    have h2 : g.unsigned_tx.input.all (fun i => i.script_sig.isEmpty && i.witness.isEmpty)
+        = (g.unsigned_tx.input.map (fun i => (i.script_sig.isEmpty, i.witness.isEmpty))).all (fun pr => pr.1 && pr.2) := by
+      rw [List.all_map]; rfl
+    rw [h1, h2, hcorr]
+  constructor
+  · intro h
+    have h' : ¬ (p.txInputs.all (fun i => i.scriptSigEmpty && i.witnessEmpty) = true) := by
+      rw [hall]; exact fun hh => h ((C19_fn_unsigned_tx_checks_ok g).mpr hh)
+    rw [Streamed.decode, if_neg h']
+  · intro h
+    have h' := (C19_fn_unsigned_tx_checks_ok g).mp h
+    rw [← hall] at h'
+    rw [Streamed.decode, if_pos h']
+    cases Streamed.stepAll p.txInputs p.inputs with
+    | none => rfl
+    | some r => rfl
+
+/-- non-vacuity: an input with a scriptSig is refused with the first error, one with only a witness with the second -/
+example : StreamedPSBT.unsigned_tx_checks ⟨⟨[⟨[], []⟩, ⟨[1], [[2]]⟩]⟩⟩ = .error (.err "Error::UnsignedTxHasScriptSigs")
+    ∧ StreamedPSBT.unsigned_tx_checks ⟨⟨[⟨[], []⟩, ⟨[], [[2]]⟩]⟩⟩ = .error (.err "Error::UnsignedTxHasScriptWitnesses")
+    ∧ StreamedPSBT.unsigned_tx_checks ⟨⟨[⟨[], []⟩, ⟨[], []⟩]⟩⟩ = .ok () := by
+  refine ⟨?_, ?_, ?_⟩ <;> rfl
+
+end Psbt
 
 /-- non-vacuity: the three outcome classes on the generated function -/
 example : Gen.FnMsgs.check_message_length 1 = .error (.err "Error::ShortRead")
